@@ -245,7 +245,10 @@ fn random_case(u: &mut Choices, sz: Size) -> CaseResult {
     // r0.., parameterised rules pr0.. are shared names with different definitions
     let mut rules = vec![];
     for i in 0..nr {
-        let f = gen_wide_file(u, &docs[i % nd], sz, false);
+        let mut f = gen_wide_file(u, &docs[i % nd], sz, false);
+        if u.chance(1, 4) {
+            add_capture_idiom(u, &mut f, &docs[i % nd]);
+        }
         rules.push(print_file(&f));
     }
     let b = Batch { rules, docs: docs.iter().map(|d| d.to_json()).collect(), rule_order: shuffle(u, nr), doc_order: shuffle(u, nd), same_names: u.chance(1, 3) };
